@@ -297,3 +297,50 @@ def c01_tiny_root_cases(rng, count=2):
     c["max_bits"] = 2400
     out.append(c)
     return out
+
+
+def c01_dpe_multiple_cases(rng):
+    """C01 family 'multiple roots solved in the DPE phase at low output precision'.
+    Exact rational polynomials with a double AND a triple root (small rationals) whose coefficient range
+    (n+1)*max|a_i| / min(|a_0|,|a_n|) is beyond the double range, so that the classic algorithm skips / leaves its
+    float phase and settles the clusters in the DPE phase (mps_dsolve / mps_dmodify) when only a few digits are asked:
+      big      two more roots of modulus ~1e400
+      small    one more root of modulus ~1e-400 and a simple root of moderate size
+      coef+/-  moderate roots only, every coefficient multiplied by 10^+-400 (no coefficient is a double)
+      rootscale every root multiplied by 10^-120 (the multiple roots themselves are far from 1)
+    Each case carries max_bits (resolution the oracle may need) like c01_tiny_root_cases.  Deterministic for a given rng."""
+    out = []
+    def two_multiple():
+        # a double root d and a triple root t, well apart (at least 1/2), both of modulus in [1, 6]
+        while True:
+            d = Fr(rng.choice([-1, 1]) * rng.randint(2, 12), rng.choice([1, 2, 3]))
+            t = Fr(rng.choice([-1, 1]) * rng.randint(2, 12), rng.choice([1, 2, 3]))
+            if abs(d) >= 1 and abs(t) >= 1 and abs(d) <= 6 and abs(t) <= 6 and abs(abs(d) - abs(t)) >= Fr(1, 2): return d, t
+    def simple_far(d, t):
+        while True:
+            s = Fr(rng.choice([-1, 1]) * rng.randint(7, 11))
+            if abs(s - d) >= 1 and abs(s - t) >= 1: return s
+    def build(name, rs, scale=Fr(1), max_bits=2400):
+        coeffs = S.poly_from_roots(rs, (Fr(scale), Fr(0)))
+        c = mono_case(name, "multiple-roots-dpe-phase", coeffs, rng, simple=False, roots=list(rs), kind="Rational")
+        c["max_bits"] = max_bits
+        return c
+    R = lambda x: (Fr(x), Fr(0))
+    # big: two roots near 1e400
+    d, t = two_multiple()
+    a, b = rng.sample([1, 2, 3, 5, 7], 2)
+    out.append(build("dpemult_big", [R(a * Fr(10) ** 400), R(-b * Fr(10) ** 400 if rng.random() < 0.5 else b * Fr(10) ** 400)] + [R(d)] * 2 + [R(t)] * 3))
+    # small: one root near 1e-400 and a simple root of moderate size (two roots near 1e-400 in one square-free factor
+    # defeat the untrusted hint generator of the root oracle, mpmath.polyroots: such an input would never be judged)
+    d, t = two_multiple()
+    a = rng.choice([1, -2, 3, -5, 7])
+    out.append(build("dpemult_small", [R(a * Fr(1, 10 ** 400)), R(simple_far(d, t))] + [R(d)] * 2 + [R(t)] * 3))
+    # moderate roots, all coefficients scaled by 10^+-400
+    for nm, sc in (("dpemult_coef_up", Fr(10) ** 400), ("dpemult_coef_down", Fr(1, 10 ** 400))):
+        d, t = two_multiple()
+        out.append(build(nm, [R(d)] * 2 + [R(t)] * 3 + [R(simple_far(d, t))], scale=sc))
+    # every root scaled by 10^-120 (degree 6: a_0/a_n ~ 1e-720)
+    d, t = two_multiple()
+    sc = Fr(1, 10 ** 120)
+    out.append(build("dpemult_rootscale", [R(d * sc)] * 2 + [R(t * sc)] * 3 + [R(simple_far(d, t) * sc)]))
+    return out
